@@ -30,6 +30,13 @@ Theorem CS3G_keystream_prefix : forall K IV n m,
   Spec.keystream K IV n = firstn n (Spec.keystream K IV (n + m)).
 Proof. exact keystream_prefix. Qed.
 
+Theorem CS3G_getkeystream_prefix : forall K IV n m a b,
+  length K = 4%nat -> length IV = 4%nat ->
+  Forall (fun w => w < 2 ^ 32) K -> Forall (fun w => w < 2 ^ 32) IV ->
+  Snow3g.GetKeyStream K IV n = Ok a -> Snow3g.GetKeyStream K IV (n + m) = Ok b ->
+  a = firstn (N.to_nat n) b.
+Proof. exact final_getkeystream_prefix. Qed.
+
 (* ---- C06: NEA1 = UEA2 for every bit length ------------------------------------------------ *)
 (* for every key, COUNT, BEARER < 32, DIRECTION < 2, input and bit length <= 8*len(ibs): NEA1 returns
    an output of the input's length whose first `length` bits are the standard's output for the
@@ -62,6 +69,15 @@ Theorem CS3G_nasencrypt_alg1 : forall key count bearer direction payload,
   NASEncrypt_alg1 key count bearer direction payload
   = NEA1 key count bearer direction payload (8 * N.of_nat (length payload)).
 Proof. exact final_nasencrypt_alg1. Qed.
+
+(* ... hence the API output is the standard's output on all 8*len(payload) bits *)
+Theorem CS3G_nasencrypt_alg1_eq_uea2 : forall key count bearer direction payload,
+  length key = 16%nat -> bytes_ok key -> count < 2 ^ 32 -> bearer < 32 -> direction < 2 ->
+  8 * N.of_nat (length payload) < 2 ^ 32 - 31 ->
+  exists c,
+    NASEncrypt_alg1 key count bearer direction payload = Ok c /\ length c = length payload /\
+    Spec.octets_bits c = Spec.EEA1 key count bearer direction (Spec.octets_bits payload).
+Proof. exact final_nasencrypt_alg1_eq_uea2. Qed.
 
 (* ---- C07: NIA1 = UIA2 with FRESH = BEARER || 0^27, every message bit length including 0 ------- *)
 (* an N-bit message is given as octets whose bits beyond N are zero *)
@@ -190,9 +206,11 @@ Proof. split; [exact nea1_domain_bit_example | exact nia1_domain_bit_example]. Q
 
 Print Assumptions CS3G_keystream_eq_spec.
 Print Assumptions CS3G_keystream_prefix.
+Print Assumptions CS3G_getkeystream_prefix.
 Print Assumptions CS3G_nea1_eq_uea2.
 Print Assumptions CS3G_nea1_beyond_length_observation.
 Print Assumptions CS3G_nasencrypt_alg1.
+Print Assumptions CS3G_nasencrypt_alg1_eq_uea2.
 Print Assumptions CS3G_nia1_eq_uia2.
 Print Assumptions CS3G_nasmac_alg1.
 Print Assumptions CS3G_nea1_length.
